@@ -269,3 +269,9 @@ pub fn snapshot(app: &App, contracts: &[Addr], holders: &[String], denoms: &[&st
     }
     v
 }
+
+/// `./check Cnn --replay FILE` runs the harness with cwd = harness/: accept paths relative to the framework root too
+pub fn read_replay(path: &str) -> serde_json::Value {
+    let txt = std::fs::read_to_string(path).or_else(|_| std::fs::read_to_string(format!("../{path}"))).expect("replay file not found");
+    serde_json::from_str(&txt).expect("replay file is not json")
+}
